@@ -155,7 +155,7 @@ pub fn run(ctx: &Ctx) -> ! {
         add("json_deep", Some(FileKind::Bytes { hex: "5b".repeat(300) }), None, None, false, &mut rng, &mut ev);
         // well-formed content of an odd shape, per kind of file
         let odd: &[&str] = if c.name.starts_with("parse_groks") {
-            &["{\"A\": 1}", "{\"A\": null, \"B\": [\"x\"]}", "{\"\": \"x\"}", "{\"PATTERN_A\": \"%{\"}", "{\"A\\u0000\": \"x\"}", "{\"PATTERN_A\": \"%{NOSUCH:x}\"}", "{\"PATTERN_A\": \"(\"}", "{\"PATTERN_A\": \"username=%{USERNAME:username\"}", "{}", "[]", "null", "\"s\"", "{\"PATTERN_A\": {\"nested\": \"x\"}}", " ", "\n"]
+            &["{\"A\": 1}", "{\"A\": null, \"B\": [\"x\"]}", "{\"\": \"x\"}", "{\"PATTERN_A\": \"%{\"}", "{\"A\\u0000\": \"x\"}", "{\"PATTERN_A\": \"%{NOSUCH:x}\"}", "{\"PATTERN_A\": \"(\"}", "{\"PATTERN_A\": \"username=%{USERNAME:username\"}", "{}", "[]", "null", "\"s\"", "{\"PATTERN_A\": {\"nested\": \"x\"}}", " ", "\n", "{\"PATTERN_A\": [\"username=\", 1]}", "{\"PATTERN_A\": [\"a\", \"b\"]}", "{\"PATTERN_A\": [1, \"a\", null, {}]}", "{\"PATTERN_A\": [], \"PATTERN_B\": [[\"x\"]]}", "{\"PATTERN_A\": true, \"PATTERN_B\": 1.5}"]
         } else if c.name.starts_with("parse_etld") {
             &["!", "*.", "*", "!\n*.\n", "acmecorp\r\n*.ck\r\n!www.ck\r\n", "acmecorp", "// only a comment\n", "\n\n\n", ".", "..", "a..b", "*.*.x", "!!x", "xn--\n", " acmecorp \n", "ACMECORP\n", "\u{feff}acmecorp\n"]
         } else if c.name.starts_with("validate_json_schema") {
@@ -173,6 +173,16 @@ pub fn run(ctx: &Ctx) -> ! {
             add("long_line", Some(FileKind::Bytes { hex }), None, None, false, &mut rng, &mut ev);
         }
         if c.name.starts_with("parse_groks") {
+            // long rules that fail in the final grok compilation, with multi-byte characters at every offset mod 4
+            // (error paths like to echo a shortened rule)
+            for pad in 0..4 {
+                for len in [100usize, 255, 300, 510, 1020, 2050, 4100] {
+                    let rule = format!("{}{}(", "a".repeat(pad), "\u{e9}\u{4e16}".repeat(len / 5 + 1));
+                    let text = format!("{{\"PATTERN_A\": \"%{{PATTERN_B}}\", \"PATTERN_B\": \"{rule}\"}}");
+                    let hex: String = text.bytes().map(|b| format!("{b:02x}")).collect();
+                    add("long_failing_rule", Some(FileKind::Bytes { hex }), None, None, false, &mut rng, &mut ev);
+                }
+            }
             let big = format!("{{{}}}", (0..400).map(|i| format!("\"P{i}\": \"v{i}\"")).collect::<Vec<_>>().join(", "));
             let hex: String = big.bytes().map(|b| format!("{b:02x}")).collect();
             add("many_entries", Some(FileKind::Bytes { hex }), None, None, false, &mut rng, &mut ev);
@@ -204,6 +214,44 @@ pub fn run(ctx: &Ctx) -> ! {
                 continue;
             }
             add("bit_flip", Some(content(None, Some(b), None)), None, None, false, &mut rng, &mut ev);
+        }
+    }
+    // the same schema file used by program variants that differ in one argument, while the file changes over time
+    // (caches keyed by (path, flag) with per-path side tables are only wrong for such histories)
+    {
+        let fixtures = ["tests/data/jsonschema/validate_json_schema/schema_with_email_format.json", "tests/data/jsonschema/validate_json_schema/schema_with_custom_format.json", "tests/data/jsonschema/validate_json_schema/schema_arrays_of_things.json"];
+        let bad_states = [FileKind::Absent, FileKind::Bytes { hex: String::new() }, FileKind::Directory, FileKind::Bytes { hex: "7b2274797065223a".into() }, FileKind::Bytes { hex: "5b5d".into() }];
+        let mut k = 0;
+        for fx in fixtures {
+            for bad in &bad_states {
+                for order in 0..4 {
+                    k += 1;
+                    let fname = format!("v{k}.json");
+                    let good = FileKind::Content { from: fx.to_string(), truncate: None, flip_bit: None, append: None };
+                    let prog = |flag: bool| ProgramSpec { source: format!(".ok, .err = validate_json_schema(string!(.doc), \"@DIR@/{fname}\", {flag})\n.\n"), read_only: vec![], precompile: true, label: format!("F:validate_json_schema(variants,{flag})") };
+                    let run = |p: usize| Op::Run { prog: p, event: 0, fresh_runtime: true, faults: FaultPlan::default(), tag: String::new() };
+                    let set = |st: &FileKind| Op::SetFile { file: FileState { name: fname.clone(), state: st.clone() } };
+                    let (a, b) = if order % 2 == 0 { (0, 1) } else { (1, 0) };
+                    let mut ops = vec![run(a), run(b), set(bad), run(a), run(b), run(a), set(&good), run(b), run(a)];
+                    if order >= 2 {
+                        ops = vec![run(a), set(bad), run(b), run(a), set(&good), run(a), run(b), set(bad), run(b), run(a)];
+                    }
+                    worlds.push(WorldSpec {
+                        id: format!("file-variants-{k}"),
+                        clock: Some(c14::T0),
+                        coord_hash_seed: 1,
+                        programs: vec![prog(false), prog(true)],
+                        events: vec![EventSpec { value: serde_json::json!({"doc": "{ \"productUser\": \"valid@email.com\" }"}), metadata: None, secrets: Default::default() }],
+                        nodes: vec![NodeSpec { tz: "UTC".into(), hash_seed: 1, own_clone: false, ref_backing: false, ops }],
+                        sched: SchedSpec { policy: Policy::Serial, seed: 0, max_yields: 100_000 },
+                        files: vec![FileState { name: fname.clone(), state: good.clone() }],
+                        monitors: vec![],
+                        fresh_threads: false,
+                    });
+                    *kinds.entry("schema_variants_file_changes".into()).or_insert(0) += 1;
+                    ev.distinct.insert(fnv(format!("variants|{k}").as_bytes()));
+                }
+            }
         }
     }
     let file_cases = worlds.len() as u64;
